@@ -182,4 +182,188 @@ theorem rightRel_after_lvl (S : Schema) {ty tyP : TypeId} {K L : List Node} {b n
       rw [splitRight_append_pre _ _ _ hp, splitRight_append_pre _ _ _ hp,
         splitRight_skip _ _ _ (by omega) (by simp), splitRight_skip _ _ _ (by omega) (by simp)]
       simp
+
+/-! ### the guard's decomposition; `insertAt` with an inner node's content exchanged -/
+
+theorem insideGap_cons (n : Node) (ns : List Node) (gf gt f1 t1 e1 : Nat) :
+    insideGap (n :: ns) gf gt f1 t1 e1 =
+      if f1 = 0 then false
+      else if n.size ≤ f1 then insideGap ns (gf - n.size) (gt - n.size) (f1 - n.size) (t1 - n.size) e1
+      else match n with
+        | .elem _ _ _ kids =>
+          if e1 ≠ 0 && t1 < n.size then
+            if gf = 0 && n.size ≤ gt then true
+            else insideGap kids (gf - 1) (gt - 1) (f1 - 1) (t1 - 1) (e1 - 1)
+          else false
+        | _ => false := by
+  conv => lhs; unfold insideGap
+  split
+  · rfl
+  · split
+    · rfl
+    · cases n <;> rfl
+
+/-- **what the guard says**: the step's range lies in the content `kN` of an element child `n` of a nested level, the
+    step descends at least to `kN`, and `n` lies inside the window -/
+theorem insideGap_decomp : ∀ (rest : List Node) (ty : TypeId) (level pre : List Node)
+    (gf gt f1 t1 e1 : Nat), level = pre ++ rest → fnorm level = true → f1 ≤ t1 → t1 < gt →
+    insideGap rest gf gt f1 t1 e1 = true →
+    ∃ (b nd : Nat) (tyA : TypeId) (ctx : List Node → List Node) (P : List Node) (tyN : TypeId) (aN : Attrs)
+      (mN : Marks) (kN R : List Node) (g1 h1 : Nat),
+      Lvl ty level b nd tyA (P ++ Node.elem tyN aN mN kN :: R) ctx ∧
+      fsize pre + f1 = b + (fsize P + 1) + g1 ∧ fsize pre + t1 = b + (fsize P + 1) + h1 ∧
+      g1 ≤ h1 ∧ h1 ≤ fsize kN ∧ nd + 1 ≤ e1 ∧
+      fsize pre + gf ≤ b + fsize P ∧ b + fsize P + (2 + fsize kN) ≤ fsize pre + gt
+  | [], _, _, _, _, _, _, _, _, _, _, _, _, h => by simp [insideGap] at h
+  | n :: ns, ty, level, pre, gf, gt, f1, t1, e1, hl, hn, h11, htg, h => by
+    rw [insideGap_cons] at h
+    by_cases hf : f1 = 0
+    · rw [if_pos hf] at h; simp at h
+    rw [if_neg hf] at h
+    by_cases hle : n.size ≤ f1
+    · rw [if_pos hle] at h
+      obtain ⟨b, nd, tyA, ctx, P, tyN, aN, mN, kN, R, g1, h1, hL, q1, q2, r1, r2, r3, r4, r5⟩ :=
+        insideGap_decomp ns ty level (pre ++ [n]) (gf - n.size) (gt - n.size) (f1 - n.size) (t1 - n.size) e1
+          (by simp [hl]) hn (by omega) (by omega) h
+      refine ⟨b, nd, tyA, ctx, P, tyN, aN, mN, kN, R, g1, h1, hL, ?_, ?_, r1, r2, r3, ?_, ?_⟩
+      · rw [← q1, fsize_append]; simp; omega
+      · rw [← q2, fsize_append]; simp; omega
+      · rw [fsize_append] at r4; simp at r4; omega
+      · rw [fsize_append] at r5; simp at r5; omega
+    rw [if_neg hle] at h
+    cases n with
+    | text s m => simp at h
+    | leaf tt a m => simp at h
+    | elem tyC aC mC kidsC =>
+      simp only [Node.size_elem, Nat.not_le] at hle
+      simp only [Node.size_elem] at h
+      have hpre : fnormKids pre = true := by rw [hl] at hn; exact fnormKids_append_left hn
+      by_cases hc1 : (e1 ≠ 0 && decide (t1 < 2 + fsize kidsC)) = true
+      · rw [if_pos hc1] at h
+        simp only [Bool.and_eq_true, decide_eq_true_eq, ne_eq] at hc1
+        by_cases hr : (decide (gf = 0) && decide (2 + fsize kidsC ≤ gt)) = true
+        · simp only [Bool.and_eq_true, decide_eq_true_eq] at hr
+          subst hl
+          exact ⟨0, 0, ty, id, pre, tyC, aC, mC, kidsC, ns, f1 - 1, t1 - 1, Lvl.here ty _, by omega, by omega,
+            by omega, by omega, by omega, by omega, by omega⟩
+        · rw [if_neg hr] at h
+          subst hl
+          obtain ⟨b, nd, tyA, ctx, P, tyN, aN, mN, kN, R, g1, h1, hL, q1, q2, r1, r2, r3, r4, r5⟩ :=
+            insideGap_decomp kidsC tyC kidsC [] (gf - 1) (gt - 1) (f1 - 1) (t1 - 1) (e1 - 1)
+              (by simp) (fnorm_child hn) (by omega) (by omega) h
+          simp only [fsize_nil, Nat.zero_add] at q1 q2 r4 r5
+          exact ⟨fsize pre + 1 + b, nd + 1, tyA, _, P, tyN, aN, mN, kN, R, g1, h1,
+            Lvl.down ty pre aC mC ns hpre hL, by omega, by omega, r1, r2, by omega, by omega, by omega⟩
+      · rw [if_neg hc1] at h; simp at h
+
+/-! ### `Slice.insertAt` reads the inserted fragment's top-level types and marks only -/
+
+theorem canReplace_ins_congr (S : Schema) (p : TypeId) (level : List Node) (i j : Nat) (ins ins' : List Node)
+    (hty : S.types ins = S.types ins') (hmk : ins.map Node.marks = ins'.map Node.marks) :
+    S.canReplace p level i j ins 0 ins.length = S.canReplace p level i j ins' 0 ins'.length := by
+  have hlen : ins.length = ins'.length := by
+    have := congrArg List.length hty
+    simpa [Schema.types] using this
+  have hall : ins.all (fun k => (S.nodeType p).allowsMarks k.marks) =
+      ins'.all (fun k => (S.nodeType p).allowsMarks k.marks) := by
+    have e : ∀ l : List Node, l.all (fun k => (S.nodeType p).allowsMarks k.marks) =
+        (l.map Node.marks).all (fun m => (S.nodeType p).allowsMarks m) := by
+      intro l; induction l with
+      | nil => rfl
+      | cons x xs ih => simp [List.all_cons, ih]
+    rw [e ins, e ins', hmk]
+  unfold Schema.canReplace
+  simp only [List.take_length, List.drop_zero, hty, hall]
+
+theorem flatInsert_success_congr (S : Schema) (ins ins' : List Node)
+    (hty : S.types ins = S.types ins') (hmk : ins.map Node.marks = ins'.map Node.marks)
+    (parent : Option TypeId) (level : List Node) (d idx : Nat) (c : List Node)
+    (h : flatInsert S ins parent level d idx = .ok (some c)) :
+    ∃ c', flatInsert S ins' parent level d idx = .ok (some c') := by
+  unfold flatInsert at h ⊢
+  simp only at h ⊢
+  cases parent with
+  | none =>
+    simp only at h ⊢
+    cases h1 : fcut level 0 d with
+    | error e => simp [h1] at h
+    | ok l =>
+      cases h2 : fcut level d (fsize level) with
+      | error e => simp [h1, h2] at h
+      | ok r => exact ⟨_, rfl⟩
+  | some p =>
+    simp only at h ⊢
+    rw [← canReplace_ins_congr S p level idx idx ins ins' hty hmk]
+    cases hc : S.canReplace p level idx idx ins 0 ins.length with
+    | none => simp [hc] at h
+    | some bb =>
+      cases bb with
+      | false => simp [hc] at h
+      | true =>
+        simp only [hc] at h ⊢
+        cases h1 : fcut level 0 d with
+        | error e => simp [h1] at h
+        | ok l =>
+          cases h2 : fcut level d (fsize level) with
+          | error e => simp [h1, h2] at h
+          | ok r => exact ⟨_, rfl⟩
+
+theorem insertInto_success_congr (S : Schema) (ins ins' : List Node)
+    (hty : S.types ins = S.types ins') (hmk : ins.map Node.marks = ins'.map Node.marks) :
+    ∀ (rest : List Node) (parent : Option TypeId) (level : List Node) (d0 idx d oa ob : Nat) (c : List Node),
+      insertInto S ins parent level d0 idx rest d oa ob = .ok (some c) →
+      ∃ c', insertInto S ins' parent level d0 idx rest d oa ob = .ok (some c')
+  | [], parent, level, d0, idx, d, oa, ob, c, h => by
+    unfold insertInto at h ⊢
+    split at h
+    · rename_i hd
+      rw [if_pos hd]
+      exact flatInsert_success_congr S ins ins' hty hmk _ _ _ _ c h
+    · simp at h
+  | n :: ns, parent, level, d0, idx, d, oa, ob, c, h => by
+    unfold insertInto at h ⊢
+    split at h
+    · rename_i hd
+      rw [if_pos hd]
+      exact flatInsert_success_congr S ins ins' hty hmk _ _ _ _ c h
+    · rename_i hd
+      rw [if_neg hd]
+      split at h
+      · rename_i hle
+        rw [if_pos hle]
+        exact insertInto_success_congr S ins ins' hty hmk ns parent level d0 (idx + 1) (d - n.size) oa ob c h
+      · rename_i hle
+        rw [if_neg hle]
+        split at h
+        · rename_i ty a m kids
+          simp only at h ⊢
+          split at h
+          · rename_i inner hin
+            obtain ⟨c', hc'⟩ := insertInto_success_congr S ins ins' hty hmk kids _ kids (d - 1) 0 (d - 1) _ _ inner hin
+            rw [hc']
+            exact ⟨_, rfl⟩
+          · simp at h
+          · simp at h
+        · exact flatInsert_success_congr S ins ins' hty hmk _ _ _ _ c h
+
+theorem insertAt_success_congr (S : Schema) (sl I : Slice) (pos : Nat) (ins ins' : List Node)
+    (hty : S.types ins = S.types ins') (hmk : ins.map Node.marks = ins'.map Node.marks)
+    (h : sl.insertAt S pos ins = .ok (some I)) : ∃ I', sl.insertAt S pos ins' = .ok (some I') := by
+  unfold Slice.insertAt at h ⊢
+  split at h
+  · rename_i c hc
+    obtain ⟨c', hc'⟩ := insertInto_success_congr S ins ins' hty hmk _ _ _ _ _ _ _ _ c hc
+    rw [hc']
+    exact ⟨_, rfl⟩
+  · simp at h
+  · simp at h
+
+/-- the top-level types and marks of a list do not depend on what a nested level holds -/
+theorem Lvl.ctx_labels {ty tyP : TypeId} {K L : List Node} {b nd : Nat} {ctx : List Node → List Node}
+    (h : Lvl ty K b (nd + 1) tyP L ctx) (S : Schema) (X Y : List Node) :
+    S.types (ctx X) = S.types (ctx Y) ∧ (ctx X).map Node.marks = (ctx Y).map Node.marks := by
+  cases h with
+  | down ty pre aC mC ns hp hl =>
+    simp [Schema.types, Schema.tyOf, Node.tyOr, Node.marks]
+
 end PM
